@@ -176,6 +176,24 @@ func c08Faults() []fault {
 		it["s"] = val.Num("7")
 		return one(adapt.Op{Kind: adapt.OpBatchWrite, Batch: []adapt.BatchEntry{{Table: t, Put: ixItem(a["h"].Str, "zz", "x", "1", 64)}, {Table: t, Put: it}}})
 	})
+	// 3c ReturnValues that only UpdateItem knows, on PutItem and DeleteItem: DynamoDB refuses the request; a library
+	// that refuses it too must do so before it writes or deletes anything
+	for _, rv := range []string{"UPDATED_OLD", "ALL_NEW", "UPDATED_NEW", "NO_SUCH_VALUE"} {
+		rv := rv
+		// (the library does not check ReturnValues at all: the request may simply be carried out)
+		add := func(id string, mk func(r *rand.Rand, t string, p, a val.Item) []adapt.Op) {
+			fs = append(fs, fault{id: id, mayPass: true, mk: mk})
+		}
+		add("return-values-of-updateitem/delete/"+rv, func(r *rand.Rand, t string, p, a val.Item) []adapt.Op {
+			return one(adapt.Op{Kind: adapt.OpDelete, Table: t, Key: k(p), RetVal: rv})
+		})
+		add("return-values-of-updateitem/put-overwrite/"+rv, func(r *rand.Rand, t string, p, a val.Item) []adapt.Op {
+			return one(adapt.Op{Kind: adapt.OpPut, Table: t, Item: ixItem(p["h"].Str, p["r"].Str, "y", "9", 71), RetVal: rv})
+		})
+		add("return-values-of-updateitem/put-new/"+rv, func(r *rand.Rand, t string, p, a val.Item) []adapt.Op {
+			return one(adapt.Op{Kind: adapt.OpPut, Table: t, Item: ixItem(a["h"].Str, a["r"].Str, "y", "9", 72), RetVal: rv})
+		})
+	}
 	// 4 placeholders
 	add("placeholder-unused-value/put", func(r *rand.Rand, t string, p, a val.Item) []adapt.Op {
 		return one(rawCond(adapt.Op{Kind: adapt.OpPut, Table: t, Item: ixItem(p["h"].Str, p["r"].Str, "y", "9", 77)}, "attribute_exists(h)", nil, val.Item{":unused": val.Str("x")}))
